@@ -295,3 +295,8 @@ def shrink(case):
         qs = [q for q in case["qs"] if q[0] in vs and all(y in vs for y in q[1])]
         if qs:
             yield dict(case, g=h, qs=qs)
+
+
+# tie (T) for the local predicates (translator/predicates.py -> Gen/Gen_Preds.v -> Tie/Preds_Cxx.v): pre_build, extra, replay of cells
+import tie_preds  # noqa: E402
+tie_preds.install(globals(), PROP)
